@@ -11,9 +11,12 @@ from sim.simthreads import yield_now
 
 
 class SimTarget:
-    def __init__(self, shape, dtype, g=1, fill=-1):
+    def __init__(self, shape, dtype, g=1, fill=-1, advertise=False):
         self.data = np.full(shape, fill, dtype=dtype)
         self.shape = tuple(shape)
+        if advertise and len(self.shape):
+            # like h5py/zarr datasets: the storage-block shape (g rows x the full trailing extent)
+            self.chunks = (max(g, 1),) + self.shape[1:]
         self.dtype = np.dtype(dtype)
         self.ndim = len(self.shape)
         self.g = g
